@@ -525,7 +525,19 @@ func (m *machine) userChangesMode(viaCommands bool) {
 	oldMode, _, oldRaw, oldExists := parseMode(modePath)
 	if !viaCommands && t.Bool(1, 4) {
 		// arbitrary content
-		garbage := [][]byte{[]byte(""), []byte("ON"), []byte("on2024-01-01"), []byte("bogus 2024-01-01"), []byte(" on \n"), []byte("on 2024-13-45"), []byte("local\n"), []byte("off 2024-01-01\n"), {0xff, 0xfe}, []byte("on\toff")}
+		garbage := [][]byte{[]byte(""), []byte("ON"), []byte("on2024-01-01"), []byte("bogus 2024-01-01"), []byte(" on \n"), []byte("on 2024-13-45"), []byte("local\n"), []byte("off 2024-01-01\n"), {0xff, 0xfe}, []byte("on\toff"),
+			// near-misses of off and local: none of them is "off" (so reports are built) and none is "on" (so nothing is sent)
+			[]byte("OFF"), []byte("Off 2024-01-01"), []byte("offf"), []byte("of"), []byte("off\x00"), []byte("off\t2024-01-01"), []byte("Local"), []byte("locale 2024-01-01"), []byte("o"), []byte("onn"), []byte("on\x00 2024-01-01")}
+		if t.Bool(1, 6) {
+			b := make([]byte, 4+t.Draw(9))
+			for i := range b {
+				b[i] = byte(t.Draw(256))
+			}
+			garbage = append(garbage, b)
+			os.WriteFile(modePath, b, 0666)
+			m.s.Probe("mode-file-random-bytes")
+			return
+		}
 		os.WriteFile(modePath, garbage[t.Draw(len(garbage))], 0666)
 		return
 	}
@@ -670,6 +682,13 @@ func (m *machine) userCleans() {
 		if t.Bool(1, 3) {
 			os.MkdirAll(filepath.Join(dir, "subdir"), 0777)
 			os.WriteFile(filepath.Join(dir, "subdir", "readme"), []byte("keep"), 0666)
+			if t.Bool(1, 2) {
+				// files with the data suffixes one level down: clean works on the two
+				// directories themselves, not on what a user keeps below them
+				os.WriteFile(filepath.Join(dir, "subdir", "2024-01-08.json"), []byte("keep"), 0666)
+				os.WriteFile(filepath.Join(dir, "subdir", "x.v1.count"), []byte("keep"), 0666)
+				m.s.Probe("data-named-file-in-subdirectory")
+			}
 		}
 		// sub-directories named like data files, holding foreign files
 		if t.Bool(1, 4) {
@@ -792,9 +811,12 @@ func (m *machine) checkRound(before, after map[string][32]byte, callsBefore, req
 	}
 	// every week without a report yet, all files ended and readable, one non-empty
 	weeks := map[string][]*modelFile{}
+	unfinished := map[string]bool{} // weeks one of whose files has not ended yet: outside the statement's premise ("all ended before the run's start time")
 	for _, mf := range m.roundFiles {
 		if mf.parseable && mf.end.Before(m.roundStart) {
 			weeks[mf.week] = append(weeks[mf.week], mf)
+		} else if mf.parseable {
+			unfinished[mf.week] = true
 		}
 	}
 	var names []string
@@ -804,6 +826,10 @@ func (m *machine) checkRound(before, after map[string][32]byte, callsBefore, req
 	sort.Strings(names)
 	for _, w := range names {
 		if m.hadReport[w] {
+			continue
+		}
+		if unfinished[w] {
+			m.s.Probe("week-with-an-unfinished-file")
 			continue
 		}
 		nonEmpty := false
